@@ -43,6 +43,12 @@ class Builder:
             k = min(n - pos, self.rng.choice([n, 1, 64, 1024, 1025, 4096, self.rng.randrange(1, n + 1)]))
             self.ops.append(f"H upd h pats {k} {self.seed} {off + pos}")
             pos += k
+            if self.rng.random() < 0.1:
+                self.ops.append(f"H upd h pats 0 {self.seed} {off + pos}")     # an empty update in between
+        if self.rng.random() < 0.5:
+            # the empty update that ends a read loop (`n = read(buf); update(&buf[..n]); if n == 0 break`), here possibly on a
+            # subtree that is already complete
+            self.ops.append(f"H upd h pats 0 {self.seed} {off + n}")
         self.ops.append(f"H cvnr h {v}")
         return v
 
@@ -104,7 +110,7 @@ def grouped_script(rng, plat):
         ops += [f"H new h {mode}"]
         if off:
             ops.append(f"H off h {off}")
-        ops += [f"H upd h pats {n} {seed} {off}", f"H cvnr h g{i}"]
+        ops += [f"H upd h pats {n} {seed} {off}"] + ([f"H upd h pats 0 {seed} {off + n}"] if i % 2 else []) + [f"H cvnr h g{i}"]
         vs.append(f"g{i}")
         off += n
         i += 1
